@@ -663,8 +663,10 @@ def selftest():
     # vectors confirmed on an ASA 9.6 device (tests/test_handlers_cisco.py)
     assert T("cisco_asa", b"0123456789ab", {}, {"user": "user"}) == "f.T4BKdzdNkjxQl7"
     assert T("cisco_asa", b"0123456789ab", {}, {"user": "365"}) == "qjgo3kNgTVxExbno"
-    assert T("cisco_asa", b"0123456789abc", {}, {"user": "user"}) == "f4/.SALxqDo59mfV"
-    assert T("cisco_asa", b"0123456789abcd", {}, {"user": "adm"}) == "DbPLCFIkHc2SiyDk"
+    assert T("cisco_asa", b"0123456789abc", {}, {"user": "user"}) == "8Q/FZeam5ai1A47p"
+    assert T("cisco_asa", b"0123456789abcd", {}, {"user": "adm"}) == "RtOmSeoCs4AUdZqZ"
+    assert T("cisco_pix", b"0123456789abc", {}, {"user": "user"}) == "f4/.SALxqDo59mfV"
+    assert T("cisco_asa", b"0123456789abcde", {}, {"user": "365"}) == "QmDsGwCRBbtGEKqM"
     assert T("cisco_pix", b"0123456789abcdef", {}, {"user": ""}) == ".7nfVBEIEu4KbF/1"
     assert T("mysql323", b"password") == "5d2e19393cc5ef67"
     assert T("mysql41", b"password") == "*2470C0C06DEE42FD1618BB99005ADCA2EC9D1E19"
